@@ -18,5 +18,7 @@ open StarsimModel.C04
 #print axioms C04_strict_draw_after_jump
 #print axioms C04_backward_jump_refused
 #print axioms C04_forced_jump_allowed
+#print axioms C04_set_does_not_rearm
+#print axioms C04_negative_indices_distinct
 #print axioms C04_empty_request_no_state_change
 #print axioms C04_reset_reuses_state
